@@ -363,3 +363,127 @@ def gen_api(rng: random.Random, idx: int) -> API:
             api.add_enum(e)
         api.add_module(m)
     return api
+
+
+# ---------------------------------------------------------------------------------------------------------------------------
+# hand-made shapes (deterministic; run in front of the random stream in both naming settings)
+def _fn(owner: str, name: str, *, params=None, results=None, public=True, prop=False, method=False) -> Function:
+    fid = f"{owner}/{name}"
+    ps = []
+    if method:
+        ps.append(Parameter(f"{fid}/self", "self", False, None, ParameterAssignment.IMPLICIT, ParameterDocstring(), None))
+    for pn, pt in (params or []):
+        ps.append(Parameter(f"{fid}/{pn}", pn, False, None, ParameterAssignment.POSITION_OR_NAME, ParameterDocstring(), pt))
+    rs = [Result(f"{fid}/result_{i + 1}", f"result_{i + 1}", t) for i, t in enumerate(results or [])]
+    return Function(id=fid, name=name, docstring=FunctionDocstring(description=f"Doc of {name}."), is_public=public, is_static=False,
+                    is_class_method=False, is_property=prop, result_docstrings=[], results=rs, parameters=ps)
+
+
+def _cl(owner: str, name: str, *, supers=None, attrs=None, methods=None, public=None) -> Class:
+    cid = f"{owner}/{name}"
+    pub = (not name.startswith("_")) if public is None else public
+    c = Class(id=cid, name=name, superclasses=list(supers or []), is_public=pub, docstring=ClassDocstring(description=f"Doc of class {name}."))
+    for an, at in (attrs or []):
+        c.attributes.append(Attribute(f"{cid}/{an}", an, pub and not an.startswith("_"), False, at, AttributeDocstring()))
+    for m in (methods or []):
+        c.methods.append(m(cid))
+    return c
+
+
+def _register(root: str, inits: list[Module], modules: list[Module]) -> API:
+    api = API("", root, "")
+    for init in inits:
+        api.add_module(init)
+        for qi in init.qualified_imports:
+            api.reexport_map[qi.qualified_name].add(init)
+        for wi in init.wildcard_imports:
+            api.reexport_map[f"{wi.module_name}.*"].add(init)
+
+    def reg_cls(c: Class):
+        for ic in c.classes:
+            reg_cls(ic)
+        api.add_class(c)
+        for a in c.attributes:
+            api.add_attribute(a)
+        for f in c.methods + ([c.constructor] if c.constructor else []):
+            api.add_function(f)
+    for m in modules:
+        for c in m.classes:
+            reg_cls(c)
+        for f in m.global_functions:
+            api.add_function(f)
+        for e in m.enums:
+            api.add_enum(e)
+        api.add_module(m)
+    return api
+
+
+INT = T.NamedType("int", "builtins.int")
+STR = T.NamedType("str", "builtins.str")
+
+
+def shape_same_name_two_packages() -> API:
+    """two different declarations with one name, each re-exported by its own package (two re-export stubs of one base name)"""
+    root = "shpa"
+    i0, i1, i2 = Module(id_=root, name="__init__"), Module(id_=f"{root}/linear", name="__init__"), Module(id_=f"{root}/tree", name="__init__")
+    mods = []
+    for init, mn in ((i1, "linear_model"), (i2, "tree_model")):
+        m = Module(id_=f"{init.id}/impl/{mn}", name=mn)
+        ii = Module(id_=f"{init.id}/impl", name="__init__")
+        c = _cl(m.id, "Config", attrs=[("depth_of_" + mn, INT)], methods=[lambda cid: _fn(cid, "describe", results=[STR], method=True)])
+        f = _fn(m.id, "build", params=[("size", INT)], results=[INT])
+        for t in (c, f):
+            init.qualified_imports.append(QualifiedImport(f"{m.id.replace('/', '.')}.{t.name}", None))
+            t.reexported_by.append(init)
+        m.classes.append(c)
+        m.global_functions.append(f)
+        m.global_functions.append(_fn(m.id, "stays_" + mn, results=[INT]))
+        mods += [ii, m]
+    inits = [i0, i1, i2] + [m for m in mods if m.name == "__init__"]
+    return _register(root, inits, [m for m in mods if m.name != "__init__"])
+
+
+def shape_converted_name_collision() -> API:
+    """a public subclass whose multi-word attribute overrides a read-only property of its private base; a method whose
+    converted name equals the converted name of an inherited one"""
+    root = "shpb"
+    i0 = Module(id_=root, name="__init__")
+    m = Module(id_=f"{root}/estimators", name="estimators")
+    base = _cl(m.id, "_BaseEstimator", methods=[
+        lambda cid: _fn(cid, "is_fitted", results=[T.NamedType("bool", "builtins.bool")], prop=True, method=True),
+        lambda cid: _fn(cid, "row_count", results=[INT], prop=True, method=True),
+        lambda cid: _fn(cid, "get_name", results=[STR], method=True),
+        lambda cid: _fn(cid, "fit_all", params=[("data", INT)], results=[INT], method=True)])
+    q = base.id.replace("/", ".")
+    sub1 = _cl(m.id, "Tree", supers=[q], attrs=[("is_fitted", T.NamedType("bool", "builtins.bool")), ("row_count", INT)],
+               methods=[lambda cid: _fn(cid, "predict", results=[INT], method=True)])
+    sub2 = _cl(m.id, "Forest", supers=[q], methods=[lambda cid: _fn(cid, "get_name", results=[STR], method=True),
+                                                     lambda cid: _fn(cid, "fit_all", params=[("data", INT)], results=[INT], method=True)])
+    m.classes += [base, sub1, sub2]
+    return _register(root, [i0], [m])
+
+
+def shape_shared_internal_base() -> API:
+    """two public classes of different modules derive from one internal class and define the same names themselves; the
+    inherited members refer to classes of another module and of another library"""
+    root = "shpc"
+    i0 = Module(id_=root, name="__init__")
+    mh = Module(id_=f"{root}/helpers", name="helpers")
+    helper = _cl(mh.id, "Helper", methods=[lambda cid: _fn(cid, "assist", results=[INT], method=True)])
+    mh.classes.append(helper)
+    mb = Module(id_=f"{root}/_base", name="_base")
+    hq = helper.id.replace("/", ".")
+    base = _cl(mb.id, "_Base", methods=[
+        lambda cid: _fn(cid, "with_helper", params=[("helper", T.NamedType("Helper", hq))], results=[T.NamedType("Helper", hq)], method=True),
+        lambda cid: _fn(cid, "amount", results=[T.NamedType("Decimal", "decimal.Decimal")], method=True)])
+    mb.classes.append(base)
+    bq = base.id.replace("/", ".")
+    mods = [mh, mb]
+    for mn, cn in (("first_user", "Alpha"), ("second_user", "Beta")):
+        mu = Module(id_=f"{root}/{mn}", name=mn)
+        mu.classes.append(_cl(mu.id, cn, supers=[bq], methods=[lambda cid: _fn(cid, "describe", results=[STR], method=True)]))
+        mods.append(mu)
+    return _register(root, [i0], mods)
+
+
+SHAPES = [shape_same_name_two_packages, shape_converted_name_collision, shape_shared_internal_base]
